@@ -12,6 +12,8 @@ rows) decides every public result of the bootstrapper read back BY LABEL through
 the model's own structure.  Relations between executions: same seed -> same
 resamples/members; other seed -> other resamples.
 """
+import contextlib
+import io
 import math
 import traceback
 import warnings
@@ -502,7 +504,9 @@ def _run_boot(obs, xe, model, B, seed, tags, op):
     del _EVENTS[:]
     mon.reset()
     bs = xe.validation.EOFBootstrapper(n_bootstraps=B, seed=seed)
-    with warnings.catch_warnings():
+    # tqdm's progress bar goes to stderr; the runner reads the workers' stderr pipes one after the other, so a
+    # chatty worker would block on a full pipe -> the bar is swallowed here (harness side, nothing patched in xeofs)
+    with warnings.catch_warnings(), contextlib.redirect_stderr(io.StringIO()):
         warnings.simplefilter("ignore")
         ok, _ = _guard(obs, op, lambda: bs.fit(model), tags)
     ev = list(_EVENTS)
